@@ -99,11 +99,15 @@ def gen_attrs(rnd, tb, depth=2, reuse=0.0):
         if k == 2:
             return d.Save(rnd.choice([d.SaveMode.ALL, d.SaveMode.NONE, tb.s, [tb.s, tb.t], "xtop.n1", ["a", "b", "c"]]))
         if k == 3:
-            return d.Meas(analysis=rnd.choice(["tran", d.Tran(tstop=1)]), expr="max(v)", name="m1")
+            # a measurement names its analysis by type-name, or holds an analysis object of any kind
+            return d.Meas(analysis=rnd.choice(["tran", "ac", d.Tran(tstop=1), analysis(1), analysis(0), analysis(1)]),
+                          expr=rnd.choice(["max(v)", " rise(v(out), 0.5) ", "a\tb"]), name="m1")
         if k == 4:
             return d.Param(val=num(), name=f"p{rnd.randint(0, 9)}")
         if k == 5:
-            return h.Literal("* comment")
+            # literal text goes out exactly as it stands: indentation, tabs, blank lines, trailing blanks included
+            return h.Literal(rnd.choice(["* comment", "  .ic v(x)=1", "\t.option x=1", "  .control\n    run\n  .endc",
+                                         " * a\n\n * b ", "    ", ".param a=1\n  + b=2"]))
         return d.Options(value=rnd.choice([1, 2.5, "method=gear", False, True, 0, 0.0, ""]), name="reltol")
     attrs = []
     for _ in range(rnd.randint(1, 6)):
@@ -254,7 +258,9 @@ def check_sim(case):
                 if kind != "lib" or (pc.lib.path, pc.lib.section) != (str(c.path), c.section):
                     return ("post.control", f"ctrls[{k}]: lib changed", w)
             elif isinstance(c, d.Meas):
-                at = c.analysis if isinstance(c.analysis, str) else c.analysis.tp.value
+                at = c.analysis if isinstance(c.analysis, str) else \
+                    {"Op": "op", "Dc": "dc", "Ac": "ac", "Tran": "tran", "Noise": "noise", "SweepAnalysis": "sweep",
+                     "MonteCarlo": "monte", "CustomAnalysis": "custom"}[type(c.analysis).__name__]     # the documented type-names
                 if kind != "meas" or (pc.meas.name, pc.meas.expr, pc.meas.analysis_type) != (c.name, c.expr, at):
                     return ("post.control", f"ctrls[{k}]: meas changed", w)
             elif isinstance(c, d.Param):
